@@ -21,6 +21,10 @@ import PolyVerif.Gen.StlNormals
     c07.holds.reencode <in> <out>     → out reads back to the same records as in, same length, and out = in
                                         when in has no signalling NaN   (stl_reencode)
     c07.holds.roundtrip <mesh> <mesh> → RoundTrips m r                 (stl_mesh_roundtrip)
+    c07.holds.unit_mean <mesh> <bytes> → every stored normal is the unit vector along the sum of its corner normals
+                                        (tolerance; avgNormal_unit_mean evaluated at Float on WriteMesh's output)
+    c07.holds.geometric_fallback <bytes> <mesh> → every corner normal ReadMesh derived for a zero stored normal is
+                                        unit, orthogonal to both edges, right-handed (flatNormal_geometric at Float)
     c07.holds.geometric_normal_when_none_stored_witness <mesh> <mesh> → FullNormals m r (strict clause; known finding:
                                         false for a mesh that stores no normals — stl_geometric_normal_counterexample)
 -/
@@ -100,6 +104,31 @@ def P : Params UInt64 where
   up w := canon (Float32.ofBits (UInt32.ofNat w.toNat)).toFloat
   avgNormal a b c := bitsOfV (Gen.StlNormals.avgNormal (vOfBits a) (vOfBits b) (vOfBits c))
   flatNormal v1 v2 v3 := bitsOfV (Gen.StlNormals.flatNormal (vOfBits v1) (vOfBits v2) (vOfBits v3))
+
+/-! ### geometric content of the two normal clauses, evaluated at Float with a tolerance on implementation
+    output (the statements of `avgNormal_unit_mean` / `flatNormal_geometric`, Lemmas/StlNormals.lean) -/
+
+def fdot (a b : V3 Float) : Float := a.x * b.x + a.y * b.y + a.z * b.z
+def fcross (a b : V3 Float) : V3 Float := ⟨a.y * b.z - a.z * b.y, a.z * b.x - a.x * b.z, a.x * b.y - a.y * b.x⟩
+def flen (a : V3 Float) : Float := Float.sqrt (fdot a a)
+def fsub (a b : V3 Float) : V3 Float := ⟨a.x - b.x, a.y - b.y, a.z - b.z⟩
+def tame (a : V3 Float) : Bool := a.x.abs < 1e4 && a.y.abs < 1e4 && a.z.abs < 1e4
+def w32V (v : P3 W32) : V3 Float :=
+  let f (w : W32) : Float := (Float32.ofBits (UInt32.ofNat w.toNat)).toFloat
+  ⟨f v.x, f v.y, f v.z⟩
+
+/-- stored normal `n` is the unit vector along `n1+n2+n3` (skipped when the sum is tiny / huge / not finite) -/
+def unitMeanOk (n1 n2 n3 n : V3 Float) : Bool :=
+  let s : V3 Float := ⟨n1.x + n2.x + n3.x, n1.y + n2.y + n3.y, n1.z + n2.z + n3.z⟩
+  let l := flen s
+  if !(tame n1 && tame n2 && tame n3 && l > 1e-3) then true else
+  (flen n - 1).abs < 1e-5 && fdot n s > 0 && flen (fcross n s) < 1e-5 * l
+
+/-- corner normal `u` is the unit geometric normal of `v1 v2 v3` in winding order (skipped when degenerate / wild) -/
+def geometricOk (v1 v2 v3 u : V3 Float) : Bool :=
+  let e1 := fsub v2 v1; let e2 := fsub v3 v1; let cr := fcross e1 e2
+  if !(tame v1 && tame v2 && tame v3 && flen cr > 1e-6 && flen e1 > 1e-3 && flen e2 > 1e-3) then true else
+  (flen u - 1).abs < 1e-9 && (fdot u e1).abs < 1e-7 * flen e1 && (fdot u e2).abs < 1e-7 * flen e2 && fdot u cr > 0
 
 def u64? (s : String) : Option UInt64 :=
   if s.length ≠ 16 then none else (parseHex s).map (fun n => canon (Float.ofBits n.toUInt64))
@@ -184,6 +213,31 @@ def handle (op : String) (args : List String) : Option String := do
           pure (boolStr (decide (x = y) && o.length == i.length && (!exact || o == i)))
         | _, _, _ => pure "false"
       | _ => none
+  | "c07.holds.unit_mean" =>       -- <mesh> <bytes WriteMesh produced>
+      let (m, r) ← mesh? args
+      let bs ← bytesOfHex (← r.head?)
+      match m.nrm, decode bs with
+      | some ns, .ok (_, ts) =>
+        pure (boolStr (ts.length == (chunks m.indices).length &&
+          ((chunks m.indices).zip ts).all fun ((a, b, c), t) =>
+            match ns[a]?, ns[b]?, ns[c]? with
+            | some n1, some n2, some n3 => unitMeanOk (vOfBits n1) (vOfBits n2) (vOfBits n3) (w32V t.n)
+            | _, _, _ => false))
+      | _, _ => pure "false"
+  | "c07.holds.geometric_fallback" =>   -- <bytes> <mesh ReadMesh returned>
+      let bs ← bytesOfHex (← args.head?)
+      let (r, _) ← mesh? (args.drop 1)
+      match decode bs, r.nrm with
+      | .ok (_, ts), some ns =>
+        pure (boolStr (((List.range ts.length).zip ts).all fun (k, t) =>
+          if isZeroV t.n then
+            match ns[3 * k]?, ns[3 * k + 1]?, ns[3 * k + 2]? with
+            | some u, some u', some u'' =>
+              u == u' && u == u'' && geometricOk (w32V t.v1) (w32V t.v2) (w32V t.v3) (vOfBits u)
+            | _, _, _ => false
+          else true))
+      | .ok _, none => pure "true"
+      | _, _ => pure "false"
   | "c07.holds.geometric_normal_when_none_stored_witness" =>
       let (m, r) ← mesh? args
       let (m', _) ← mesh? r
